@@ -76,6 +76,33 @@ Definition extra_cmd (ps : pstate_) (toks : list str) : option (pstate_ * str) :
       | _ => Some (ps, err)
       end
     else if tok_is c "swapf" then Some (exec idna ops ps (lit "swap" :: args))
+    else if tok_is c "setself" then
+      (* a setter called with the view one of the object's OWN getters returned (the argument aliases the
+         object's string): the Standard's setter applied to the text that getter had *)
+      match args with
+      | [ts; tw; tg] =>
+          match slot_of ts, setter_of tw with
+          | Some s, Some w =>
+              let sl := get_slot (ps_store ps) s in
+              match s_url sl with
+              | None => Some (ps, lit "set" ++ sp_ (st_str ops ps s))
+              | Some u =>
+                  let v := if tok_is tg "href" then Some (serialize u false) else if tok_is tg "protocol" then Some (get_protocol u)
+                           else if tok_is tg "username" then Some (get_username u) else if tok_is tg "password" then Some (get_password u)
+                           else if tok_is tg "host" then Some (get_host u) else if tok_is tg "hostname" then Some (get_hostname u)
+                           else if tok_is tg "port" then Some (get_port u) else if tok_is tg "pathname" then Some (get_pathname u)
+                           else if tok_is tg "search" then Some (get_search u) else if tok_is tg "hash" then Some (get_hash u)
+                           else if tok_is tg "path" then Some (get_pathname u ++ match query u with Some q => 63 :: q | None => [] end)
+                           else None in
+                  match v with
+                  | Some bytes => let ps' := put ps s (slot_set ops sl w EU8 bytes) in Some (ps', lit "set" ++ sp_ (st_str ops ps' s))
+                  | None => Some (ps, err)
+                  end
+              end
+          | _, _ => Some (ps, err)
+          end
+      | _ => Some (ps, err)
+      end
     else None
   | [] => None
   end.
